@@ -435,7 +435,12 @@ class PDFStandardSecurityHandler:
         return result[:n]
 
     def authenticate(self, password: str) -> Optional[bytes]:
-        password_bytes = password.encode("latin1")
+        try:
+            password_bytes = password.encode("latin1")
+        except UnicodeEncodeError:
+            # Revisions 2-4 derive the key from a single-byte string; a password
+            # that has no such form cannot be the password of this document.
+            return None
         key = self.authenticate_user_password(password_bytes)
         if key is None:
             key = self.authenticate_owner_password(password_bytes)
